@@ -496,7 +496,7 @@ func c9SerStage(p *logql_parser.StrSelectorPipeline) (string, error) {
 			if len(segs) > 0 {
 				pth = strings.Join(segs, "/")
 			}
-			parts = append(parts, hx(pp.Label.Name)+"="+pth)
+			parts = append(parts, hx(pp.Label.Name)+"="+pth+"="+hx(v))
 		}
 		// the parameters go to the model as the code gets them (names, typed paths, in source order); what
 		// Process makes of them (aheads, logfmtFields) is the model's business (Read.planParser, paramFields)
@@ -1503,13 +1503,27 @@ func c9Judge(r *h.Result, gens []*c9Gen) error {
 				}
 				t.tpl[hx(tp.text)] = toks
 			}
+			cutJson, cutLogfmt := false, false
 			for _, b := range g.Case.Batching[0] {
 				for _, e := range b {
 					if e.Err == "" {
 						t.js[hx(e.Msg)] = c9Json(e.Msg)
 						t.lf[hx(e.Msg)] = c9Logfmt(e.Msg)
+						// a line the decoder gives up on after it has already delivered scalars / pairs
+						if js := t.js[hx(e.Msg)]; strings.Contains(js, ",B") && (strings.Contains(js, ",S") || strings.Contains(js, ",R")) {
+							cutJson = true
+						}
+						if logfmt.Unmarshal([]byte(e.Msg), &c9LogfmtRec{}) != nil && t.lf[hx(e.Msg)] != "_" {
+							cutLogfmt = true
+						}
 					}
 				}
+			}
+			if cutJson {
+				r.Count("input:json-line-fails-after-labels-were-extracted")
+			}
+			if cutLogfmt {
+				r.Count("input:logfmt-line-fails-after-pairs-were-extracted")
 			}
 			tablesOf[gi] = t
 		}
@@ -1613,7 +1627,7 @@ func c9Judge(r *h.Result, gens []*c9Gen) error {
 						for _, pr := range ps {
 							nv := strings.SplitN(pr, "=", 2)
 							names[nv[0]]++
-							firsts[strings.SplitN(nv[1], "/", 2)[0]]++
+							firsts[strings.SplitN(strings.SplitN(nv[1], "=", 2)[0], "/", 2)[0]]++
 						}
 						r.Count(fmt.Sprintf("params:%s:n=%d", f[1], min(len(ps), 4)))
 						if len(names) < len(ps) && nontrivial {
@@ -1729,6 +1743,9 @@ func c09(r *h.Result, rng *h.Rng, tier string, replay string) error {
 		return c9Judge(r, []*c9Gen{g})
 	}
 	rng = h.NewRng(rng.U64() ^ 0xC09C09C09) // h.NewRng(s) and h.NewRng(s+1) are one step apart: re-seed from an output
+	if err := c9PathStream(r, rng.Fork(), map[bool]int{true: 1500, false: 20000}[tier == "quick"]); err != nil {
+		return err
+	}
 	nCases, nBatchings, maxEntries := 1200, 3, 60
 	if tier != "quick" {
 		nCases, nBatchings, maxEntries = 8000, 8, 60
@@ -1756,6 +1773,83 @@ func c09(r *h.Result, rng *h.Rng, tier string, replay string) error {
 		}
 		if err := c9Judge(r, gens[lo:hi]); err != nil {
 			return err
+		}
+	}
+	return nil
+}
+
+// c9PathText: a parameter path from the grammar of shared/path_parser.go, with noise
+func c9PathText(r *h.Rng) string {
+	var sb strings.Builder
+	n := h.Pick(r, []int{0, 1, 1, 2, 2, 3, 4, 6})
+	for i := 0; i < n; i++ {
+		if r.Chance(8) {
+			sb.WriteString(h.Pick(r, []string{" ", "\t", "  "}))
+		}
+		switch k := r.Intn(20); {
+		case k < 7:
+			if i > 0 || r.Chance(20) {
+				sb.WriteString(".")
+			}
+			sb.WriteString(h.Pick(r, []string{"a", "x", "y", "msg", "k_1", "_", "A9", "lvl", "b"}))
+		case k < 9:
+			sb.WriteString(h.Pick(r, []string{"a", "x", "zz"})) // an identifier without the dot (allowed: `Dot?`)
+		case k < 13:
+			sb.WriteString("[" + h.Pick(r, []string{"0", "1", "2", "10", "007", "99999", "123456789012345678", "1234567890123456789", "-1", "1.5", "0x1f", "1e3", "1a"}) + "]")
+		case k < 16:
+			sb.WriteString("[" + h.Pick(r, []string{`"k 1"`, `"a"`, `""`, "`k.1`", `"x.y"`, `"a\"b"`, `"tab\t"`, "`a\"b`", `"é"`, `"q"`}) + "]")
+		case k < 17:
+			sb.WriteString(h.Pick(r, []string{"[", "]", ".", "..", "[]", "[a]", "[\"a\"", "]]"}))
+		case k < 18:
+			sb.WriteString(h.Pick(r, []string{"-", "*", "$", "@", "#", "(", "=", ","}))
+		default:
+			sb.WriteString(h.Pick(r, []string{"//c", "/*c*/", "'c'", "a.1", ".5", "é", "\x01", "\n", "a/b"}))
+		}
+	}
+	return sb.String()
+}
+
+// c9PathStream: shared.JsonPathParamToTypedArray vs Read.parsePath (driver op c09path); texts the model declares
+// outside its fragment are counted, not compared
+func c9PathStream(r *h.Result, rng *h.Rng, n int) error {
+	r.Stream("path: shared.JsonPathParamToTypedArray on generated parameter texts (grammar of path_parser.go with noise) vs Read.parsePath")
+	texts := []string{"a", "x.y", "x.z[0]", `["k 1"]`, "b[1]", "", ".", "a.", ".a", "a b", "[0]", "a[", "a..b", "[\"a\"][1].c", "`r`", "[`r`]"}
+	for len(texts) < n {
+		texts = append(texts, c9PathText(rng))
+	}
+	ops := make([]string, len(texts))
+	for i, t := range texts {
+		ops[i] = "c09path " + hx(t)
+	}
+	ans, err := h.Model(ops)
+	if err != nil {
+		return err
+	}
+	for i, t := range texts {
+		impl := "err"
+		if path, err := shared.JsonPathParamToTypedArray(t); err == nil {
+			segs := make([]string, len(path))
+			for j, s := range path {
+				switch x := s.(type) {
+				case string:
+					segs[j] = "k" + hx(x)
+				case int:
+					segs[j] = "i" + strconv.Itoa(x)
+				}
+			}
+			impl = "ok:_"
+			if len(segs) > 0 {
+				impl = "ok:" + strings.Join(segs, "/")
+			}
+		}
+		if ans[i] == "outside" {
+			r.Count("path:outside-fragment")
+			continue
+		}
+		r.Case("path|"+t, strings.HasPrefix(impl, "ok"))
+		r.Count("path:" + strings.SplitN(impl, ":", 2)[0])
+		if impl != ans[i] {
+			r.Disagree("path", ops[i], impl, ans[i], map[string]any{"text": t})
 		}
 	}
 	return nil
